@@ -3,6 +3,7 @@ CONSTANTS
   Threads <- T2
   Keys <- K3
   DirectKeys = {}
+  MaxRepeats = 2
   DepsOpts <- G_mc
   LoadsOpts <- W_mc2
   SharedOpts = {TRUE, FALSE}
